@@ -257,4 +257,88 @@ theorem confMap_keys (conf : List BConf) (k : String) :
     intro h
     exact gen conf [] (Or.inr h)
 
+/-! ### the same configuration again: nothing is released -/
+
+theorem find_some_of_key_mem (m : List BConf) (k : String) (h : k ∈ m.map (·.key)) :
+    ∃ c, m.find? (fun c => c.key == k) = some c := by
+  obtain ⟨c, hc, hk⟩ := List.mem_map.mp h
+  cases hf : m.find? (fun c => c.key == k) with
+  | some c0 => exact ⟨c0, rfl⟩
+  | none =>
+    have := List.find?_eq_none.mp hf c hc
+    simp [hk] at this
+
+/-- a list with pairwise different keys, all of them configured, is kept entirely by the update loop -/
+theorem updLoop_keeps_all (l : List Backend) (m : List BConf)
+    (hnd : (l.map (·.key)).Nodup) (hin : ∀ b ∈ l, b.key ∈ m.map (·.key)) :
+    (updLoop l m).2.1 = [] := by
+  induction l generalizing m with
+  | nil => simp [updLoop]
+  | cons b r ih =>
+    unfold updLoop
+    obtain ⟨c, hc⟩ := find_some_of_key_mem m b.key (hin b List.mem_cons_self)
+    rw [hc]
+    simp only []
+    simp only [List.map_cons, List.nodup_cons] at hnd
+    apply ih _ hnd.2
+    intro x hx
+    have hxm := hin x (List.mem_cons_of_mem _ hx)
+    obtain ⟨d, hd, hdk⟩ := List.mem_map.mp hxm
+    have hne : x.key ≠ b.key := fun e => hnd.1 (List.mem_map.mpr ⟨x, hx, e⟩)
+    exact List.mem_map.mpr ⟨d, List.mem_filter.mpr ⟨hd, by simpa [hdk] using hne⟩, hdk⟩
+
+theorem confMap_nodup (conf : List BConf) : ((confMap conf).map (·.key)).Nodup := by
+  unfold confMap
+  have gen : ∀ (l acc : List BConf), (acc.map (·.key)).Nodup →
+      ((l.foldl (fun m c => m.filter (fun d => d.key != c.key) ++ [c]) acc).map (·.key)).Nodup := by
+    intro l
+    induction l with
+    | nil => intro acc h; exact h
+    | cons x r ih =>
+      intro acc h
+      simp only [List.foldl_cons]
+      apply ih
+      rw [List.map_append, List.nodup_append]
+      refine ⟨(h.sublist ((List.filter_sublist).map _)), by simp, ?_⟩
+      intro a ha b hb
+      simp at hb
+      subst hb
+      obtain ⟨d, hd, rfl⟩ := List.mem_map.mp ha
+      have := (List.mem_filter.mp hd).2
+      simpa using this
+  exact gen conf [] (by simp)
+
+/-- key bookkeeping of the update loop on a key-unique conf map -/
+theorem updLoop_nodup (old : List Backend) (m : List BConf) (hm : (m.map (·.key)).Nodup) :
+    (((updLoop old m).1.map (·.key)) ++ ((updLoop old m).2.2.map (·.key))).Nodup ∧
+    (∀ k ∈ ((updLoop old m).1.map (·.key)) ++ ((updLoop old m).2.2.map (·.key)), k ∈ m.map (·.key)) := by
+  induction old generalizing m with
+  | nil => simp [updLoop, hm]
+  | cons b r ih =>
+    unfold updLoop
+    cases hf : m.find? (fun c => c.key == b.key) with
+    | some c0 =>
+      simp only []
+      have hm2 : ((m.filter (fun d => d.key != b.key)).map (·.key)).Nodup := hm.sublist ((List.filter_sublist).map _)
+      obtain ⟨h1, h2⟩ := ih _ hm2
+      have hsub : ∀ k ∈ (m.filter (fun d => d.key != b.key)).map (·.key), k ∈ m.map (·.key) ∧ k ≠ b.key := by
+        intro k hk
+        obtain ⟨d, hd, rfl⟩ := List.mem_map.mp hk
+        have := List.mem_filter.mp hd
+        exact ⟨List.mem_map.mpr ⟨d, this.1, rfl⟩, by simpa using this.2⟩
+      have hbk : b.key ∈ m.map (·.key) := by
+        have := List.find?_some hf
+        exact List.mem_map.mpr ⟨c0, List.mem_of_find?_eq_some hf, by simpa using this⟩
+      refine ⟨?_, ?_⟩
+      · simp only [List.map_cons, List.cons_append, List.nodup_cons]
+        refine ⟨fun hmem => (hsub _ (h2 _ hmem)).2 (by simp [Backend.key]), h1⟩
+      · intro k hk
+        simp only [List.map_cons, List.cons_append, List.mem_cons] at hk
+        rcases hk with rfl | hk
+        · simpa [Backend.key] using hbk
+        · exact (hsub k (h2 k hk)).1
+    | none =>
+      simp only []
+      exact ih m hm
+
 end BfeVerif.C09
